@@ -1690,7 +1690,9 @@ var rJoinNode = &Rule{
 					if bin, isBin := l.V.(*ssa.BinOp); isBin {
 						if k, isK := sx.ConstInt(bin.Y); isK && k == 0 && ((bin.Op == token.EQL && !l.Neg) || (bin.Op == token.NEQ && l.Neg) || (bin.Op == token.GTR && l.Neg)) {
 							if _, isPhi := bin.X.(*ssa.Phi); isPhi {
-								ok = true
+								ok = true // the counter of the counting loop
+							} else if call, isCall := bin.X.(*ssa.Call); isCall && derivesFromValue(call, join.Params[len(join.Params)-1], 0) {
+								ok = true // a counting helper applied to the arguments
 							}
 						}
 					}
